@@ -234,7 +234,21 @@ def rule_T2(ctx):
     # forwarding: the command passes **kwargs; a name mismatch is a TypeError on every invocation
     fwd = [c for c in calls(run_cmd) if any(k.arg is None for k in c.keywords)]
     ok = len(fwd) == 1 and call_name(fwd[0]) in ("run_prog", "run")
-    ctx.check(ok, "T2", "cli.run forwards its options as **kwargs to run.run", "phyclone/cli.py:%d" % run_cmd.lineno, "options are not forwarded as keywords", construct="phyclone.cli.run", stmt="run_prog(**kwargs)")
+    why_f = "options are not forwarded as keywords"
+    if not ok and run_cmd.args.kwarg is None:
+        # explicit parameters: each option's variable must be named at its parameter of run.run
+        from ..astutil import cli_forwards
+
+        target = [c for c in calls(run_cmd) if call_name(c) in ("run_prog", "run")]
+        if len(target) == 1:
+            lost = []
+            for pname, info in sorted(opts.items()):
+                okp, whyp = cli_forwards(run_cmd, info["decl"].split("/")[0], call_name(target[0]), runfn.params, pname)
+                if not okp:
+                    lost.append("%s (%s)" % (info["decl"], whyp))
+            ok = not lost
+            why_f = "option(s) not handed to run.run: %s" % "; ".join(lost)
+    ctx.check(ok, "T2", "cli.run forwards its options to run.run (as **kwargs or one by one)", "phyclone/cli.py:%d" % run_cmd.lineno, why_f, construct="phyclone.cli.run", stmt="run_prog(**kwargs)")
     missing = sorted(set(opts) - params)
     ctx.check(not missing, "T2", "every CLI option name is a parameter of run.run (%d options)" % len(opts), runfn.where(), "option(s) %s are not parameters of run.run: TypeError on every invocation" % missing, construct="phyclone.cli.run", stmt="option names")
     required = {"in_file", "out_file"}
@@ -246,6 +260,11 @@ def rule_T2(ctx):
     for n in ast.walk(main.node):
         if isinstance(n, ast.BinOp) and isinstance(n.op, ast.Mod) and isinstance(n.right, ast.Name):
             consumers.append((n.right.id, "divisor", n, main))
+        # a slice step (islice(it, start, stop, step) / seq[::step]) has the same domain as a thinning divisor: an integer >= 1
+        if isinstance(n, ast.Call) and call_name(n).split(".")[-1] == "islice" and len(n.args) == 4 and isinstance(n.args[3], ast.Name):
+            consumers.append((n.args[3].id, "divisor", n, main))
+        if isinstance(n, ast.Slice) and isinstance(n.step, ast.Name):
+            consumers.append((n.step.id, "divisor", n, main))
     # thin must be an integer >= 1 (0 divides by zero, a negative or float value records wrong iterations)
     table = [
         ("thin", "divisor `i % thin`", lambda o: o["type"].startswith("click.IntRange") and o["min"] is not None and o["min"] >= 1),
@@ -350,11 +369,17 @@ def rule_T3(ctx):
 
     ok = not bad and rets and all(r.value is not None and _is_results(r.value) for r in rets)
     ctx.check(ok, "T3", "_run_main_sampler returns the results mapping on every path", m.where(), "some path leaves _run_main_sampler without returning the results mapping (the one that holds the trace)", construct=m.qualname, stmt="return results")
-    brk = [n for n in ast.walk(m.node) if isinstance(n, ast.Break)]
-    pm = parents(m.node)
+    # the sweep loop may have moved into a helper newer than the rules
+    from ..astutil import new_helper_scope
+
+    scope_m = new_helper_scope(prog, m)
+    brk = [n for g_ in scope_m for n in ast.walk(g_.node) if isinstance(n, ast.Break)]
+    pm = {}
+    for g_ in scope_m:
+        pm.update(parents(g_.node))
     ok = len(brk) == 1 and any("max_time" in u(t) and "elapsed" in u(t) for t, pol in guards_of(brk[0], pm))
     ctx.check(ok, "T3", "_run_main_sampler: the only break is the timer test", m.where(brk[0]) if brk else m.where(), "the sweep loop has %d break statement(s) not all tied to the max_time test" % len(brk), construct=m.qualname, stmt="break")
-    for n in ast.walk(m.node):
+    for n in [x for g_ in scope_m for x in ast.walk(g_.node)]:
         if isinstance(n, (ast.Try,)):
             ctx.fail("T3", "_run_main_sampler has no exception handler", m.where(n), "an exception handler inside the sweep loop can swallow a sampler failure", construct=m.qualname, stmt="try")
     c = prog.fn("run.run_phyclone_chain")
@@ -496,6 +521,9 @@ def run(ctx):
     # "finishes without an exception": a threshold chain that does not cover the unit interval leaves the proposed
     # tree unbound; a proposal density that degenerates gives nan weights (same rule objects as C08.B / S / F)
     _premises.proposal_chains(ctx)
+    # "every recorded entry is a tree over all data points" of *this* run: no trace, candidate list or table carried over
+    # from an earlier call through a default argument or a module-level memo
+    _premises.no_call_state(ctx)
     # every SMC pass runs over the order drawn from the tree: it must hold every data point (an order that is too short
     # ends in an index error or a tree without the missing points) — same rule object as C09.P1-P4
     from . import C09
